@@ -265,6 +265,13 @@ impl Header {
         self.to_raw().map(|raw| CRC32C.checksum(&raw))
     }
 
+    /// Used by tools when a record is written to a new place
+    pub(crate) fn set_blob_offset(&mut self, blob_offset: u64) -> bincode::Result<()> {
+        self.blob_offset = blob_offset;
+        self.update_checksum()?;
+        Ok(())
+    }
+
     /// Used for migration
     pub(crate) fn with_reversed_key_bytes(mut self) -> bincode::Result<Self> {
         self.key.reverse();
